@@ -21,7 +21,8 @@ CONSTANTS Strs,        \* the strings that may be stored
 Cells == {<<1, 1>>, <<1, 2>>, <<2, 1>>}            \* <<sheet, row>>, column A
 NoText == ""
 
-VARIABLES books,    \* sequence of [text : Cells -> Strs \cup {NoText}, has2 : BOOLEAN, tbl : table id]
+VARIABLES books,    \* sequence of [text : Cells -> Strs \cup {NoText}, has2 : BOOLEAN, tbl : table id,
+                    \*              raw : sheets not materialised yet (lazy loading), ltab : strings of the loaded file's table]
           tables,   \* sequence of string tables (sequences without duplicates)
           files,    \* files[w] = <<>> (never saved) or <<[strs, text, has2]>> : the last file saved from w
           last      \* [op, w]
@@ -41,15 +42,22 @@ SeqSet(q) == {q[i] : i \in DOMAIN q}
 EmptyText == [c \in Cells |-> NoText]
 
 (* ---- the operations as plain operators (used by the trace specification) ---- *)
-SetTextB(b, c, s)  == [b EXCEPT !.text[c] = s]
-DeleteB(b, c)      == [b EXCEPT !.text[c] = NoText]
 (* removing row r of sheet 1 deletes its cell and moves the rows below up *)
-RemoveRowB(b, r)   == IF r = 1 THEN [b EXCEPT !.text[<<1, 1>>] = b.text[<<1, 2>>], !.text[<<1, 2>>] = NoText]
-                      ELSE [b EXCEPT !.text[<<1, 2>>] = NoText]
-RemoveSheetB(b)    == [b EXCEPT !.text[<<2, 1>>] = NoText, !.has2 = FALSE]
+SetTextB(b, c, s)  == [b EXCEPT !.text[c] = s, !.raw = @ \ {c[1]}]       \* mutable access materialises the sheet
+DeleteB(b, c)      == [b EXCEPT !.text[c] = NoText, !.raw = @ \ {c[1]}]
+(* removing row r of sheet 1 (workbook-level entry point: materialises every sheet) deletes its cell and
+   moves the rows below up *)
+RemoveRowB(b, r)   == IF r = 1 THEN [b EXCEPT !.text[<<1, 1>>] = b.text[<<1, 2>>], !.text[<<1, 2>>] = NoText, !.raw = {}]
+                      ELSE [b EXCEPT !.text[<<1, 2>>] = NoText, !.raw = {}]
+RemoveSheetB(b)    == [b EXCEPT !.text[<<2, 1>>] = NoText, !.has2 = FALSE, !.raw = @ \ {2}]
+ReadSheetB(b, sh)  == [b EXCEPT !.raw = @ \ {sh}]
 FileOf(b, strs)    == [strs |-> strs, text |-> b.text, has2 |-> b.has2]
+Sheets(has2)       == IF has2 THEN {1, 2} ELSE {1}
+LoadedB(f, lazy, t) == [text |-> f.text, has2 |-> f.has2, tbl |-> t, raw |-> IF lazy THEN Sheets(f.has2) ELSE {},
+                        ltab |-> f.strs]
 
-Init == /\ books = <<[text |-> EmptyText, has2 |-> TRUE, tbl |-> 1]>>
+NewBook == [text |-> EmptyText, has2 |-> TRUE, tbl |-> 1, raw |-> {}, ltab |-> {}]
+Init == /\ books = <<NewBook>>
         /\ tables = <<<<>>>>
         /\ files = <<<<>>>>
         /\ last = [op |-> "init", w |-> 1]
@@ -80,18 +88,22 @@ Save(w) ==
      ELSE /\ files' = [files EXCEPT ![w] = <<FileOf(books[w], SeqSet(RegisterAll(<<>>, books[w], 1)))>>]
           /\ UNCHANGED tables
   /\ last' = [op |-> "save", w |-> w] /\ UNCHANGED books
-Reload(w) ==
+Reload(w, lazy) ==
   /\ files[w] # <<>> /\ Len(books) < MaxBooks
-  /\ books' = Append(books, [text |-> files[w][1].text, has2 |-> files[w][1].has2, tbl |-> Len(tables) + 1])
+  /\ books' = Append(books, LoadedB(files[w][1], lazy, Len(tables) + 1))
   /\ tables' = Append(tables, <<>>)          \* (the order of the reloaded table is irrelevant here)
   /\ files' = Append(files, <<>>)
   /\ last' = [op |-> "reload", w |-> w]
+ReadSheet(w, sh) == /\ sh \in books[w].raw
+                    /\ books' = [books EXCEPT ![w] = ReadSheetB(@, sh)]
+                    /\ last' = [op |-> "read", w |-> w] /\ UNCHANGED <<tables, files>>
 
 Next == \E w \in DOMAIN books :
           \/ \E c \in Cells, s \in Strs : SetText(w, c, s)
           \/ \E c \in Cells : Delete(w, c)
           \/ \E r \in {1, 2} : RemoveRow(w, r)
-          \/ RemoveSheet(w) \/ Clone(w) \/ Save(w) \/ Reload(w)
+          \/ RemoveSheet(w) \/ Clone(w) \/ Save(w) \/ Reload(w, FALSE) \/ Reload(w, TRUE)
+          \/ \E sh \in {1, 2} : ReadSheet(w, sh)
 Spec == Init /\ [][Next]_vars
 
 (* ---- C12 ----------------------------------------------------------------- *)
